@@ -1,6 +1,13 @@
 package kafka
 
-import "time"
+import (
+	"context"
+	"net"
+	"time"
+
+	meta "github.com/segmentio/kafka-go/protocol/metadata"
+	pproduce "github.com/segmentio/kafka-go/protocol/produce"
+)
 
 // C07 / C08: one inductive step of (*partitionWriter).writeMessages, the timer branch of awaitBatch and close,
 // from an arbitrary pre-state that satisfies the representation invariant of an open batch.
@@ -173,4 +180,76 @@ func VH_C08_Step(batchSize, preOpen, k, step int) {
 		vhAssert(len(ptw.queue.queue) == queued+1 && ptw.queue.queue[queued] == open1, "timer-queues-the-batch-left-open")
 	}
 	vhReach("c08-step")
+}
+
+// Validation at the API: WriteMessages rejects, before anything is sent, a message whose total size (key, value,
+// timestamp AND headers) exceeds BatchBytes - the precondition the inductive step relies on. Sizes symbolic.
+func VH_C08_Validation(n int) {
+	vhConcreteClock(true)
+	batchBytes := vhInt64("BatchBytes")
+	vhAssume(vhAll(batchBytes >= 1, batchBytes < 1<<20))
+	tr := &vhCountingTransport{}
+	w := &Writer{Addr: TCP("vh:9092"), Topic: "t", BatchSize: 10, BatchBytes: batchBytes, BatchTimeout: time.Millisecond, Transport: tr, RequiredAcks: RequireAll}
+	msgs := make([]Message, n)
+	tooLarge := -1
+	for i := range msgs {
+		msgs[i] = Message{Key: vhBlob("key", 1<<19), Value: vhBlob("value", 1<<19)}
+		if vhChoose("with_header", 2) == 1 {
+			msgs[i].Headers = []Header{{Key: "h", Value: vhBlob("header_value", 1<<19)}}
+		}
+		// the documented size of a message: 4 + 1 + 1 + (4+len(key)) + (4+len(value)) + 8 + headers, where the
+		// headers are a varint count and per header varint-length-prefixed key and value
+		size := int64(4+1+1+4+4+8) + int64(len(msgs[i].Key)) + int64(len(msgs[i].Value)) + int64(vrefHeadersSize(msgs[i].Headers))
+		if size > batchBytes && tooLarge < 0 {
+			tooLarge = i
+		}
+	}
+	err := w.WriteMessages(context.Background(), msgs...)
+	if tooLarge >= 0 {
+		var tl MessageTooLargeError
+		vhAssert(vhAsAssign(err, &tl), "oversized-message-is-rejected-with-MessageTooLargeError")
+		vhAssert(tr.produced == 0, "nothing-is-sent-when-a-message-is-oversized")
+		vhReach("c08-validation-rejects")
+	} else {
+		vhAssert(err == nil, "messages-within-the-limit-are-written")
+		vhReach("c08-validation-accepts")
+	}
+	w.Close()
+}
+
+// vhCountingTransport acknowledges every produce request without looking at the records (their sizes are
+// symbolic, content-free blobs).
+type vhCountingTransport struct{ produced int }
+
+func (t *vhCountingTransport) RoundTrip(ctx context.Context, addr net.Addr, req Request) (Response, error) {
+	switch r := req.(type) {
+	case *meta.Request:
+		res := &meta.Response{}
+		for _, name := range r.TopicNames {
+			res.Topics = append(res.Topics, meta.ResponseTopic{Name: name, Partitions: []meta.ResponsePartition{{PartitionIndex: 0}}})
+		}
+		return res, nil
+	case *pproduce.Request:
+		t.produced++
+		return &pproduce.Response{Topics: []pproduce.ResponseTopic{{Topic: r.Topics[0].Topic, Partitions: []pproduce.ResponsePartition{{Partition: r.Topics[0].Partitions[0].Partition}}}}}, nil
+	}
+	return nil, vhErrCoordinator
+}
+
+func vrefVarintLen(v int64) int {
+	u := uint64(v<<1) ^ uint64(v>>63)
+	n := 1
+	for u >= 0x80 {
+		u >>= 7
+		n++
+	}
+	return n
+}
+
+func vrefHeadersSize(hs []Header) int {
+	n := vrefVarintLen(int64(len(hs)))
+	for _, h := range hs {
+		n += vrefVarintLen(int64(len(h.Key))) + len(h.Key) + vrefVarintLen(int64(len(h.Value))) + len(h.Value)
+	}
+	return n
 }
